@@ -118,6 +118,17 @@ func (sc *Script) newSession() {
 	if sc.cfg.EIO3 && r.Intn(3) == 0 {
 		proto = 3
 	}
+	if sc.cfg.WT && sc.W["wt-direct"] > 0 && r.Intn(100) < sc.W["wt-direct"] {
+		s := &Sess{Proto: 4}
+		c := &cliSess{S: s, Kind: "websocket", autoPong: true} // a stream transport: driven like a websocket
+		c.ws = sc.w.DialWT(s, func(wc *WSClient, p Pkt) { sc.processPkts(c, []Pkt{p}, wc) })
+		sc.wait()
+		if s.Sid == "" {
+			c.dead = true
+		}
+		sc.ss = append(sc.ss, c)
+		return
+	}
 	if sc.W["ws-direct"] > 0 && r.Intn(100) < sc.W["ws-direct"] {
 		s := &Sess{Proto: proto, B64: r.Intn(6) == 0}
 		c := &cliSess{S: s, Kind: "websocket", autoPong: true}
@@ -285,7 +296,7 @@ func (sc *Script) doPeerClose(c *cliSess) {
 	if c.Kind == "websocket" || (c.ws != nil && !c.ws.closed) {
 		sc.w.Cause(sid, "peer")
 		sc.w.Cause(sid, "error")
-		if r.Intn(2) == 0 {
+		if r.Intn(2) == 0 || c.ws.Kind == "webtransport" {
 			c.ws.Drop()
 		} else {
 			c.ws.CloseFrame()
@@ -315,7 +326,12 @@ func (sc *Script) doCandOpen(c *cliSess) {
 	if c.Kind != "polling" || c.dead {
 		return
 	}
-	cand := sc.w.DialWS(c.S, "", nil, nil)
+	var cand *WSClient
+	if sc.cfg.WT && c.S.Proto == 4 && sc.W["wt-cand"] > 0 && sc.r.Intn(100) < sc.W["wt-cand"] {
+		cand = sc.w.DialWT(c.S, nil)
+	} else {
+		cand = sc.w.DialWS(c.S, "", nil, nil)
+	}
 	c.cands = append(c.cands, cand)
 }
 
@@ -347,7 +363,7 @@ func (sc *Script) doCandStep(c *cliSess) {
 	case k < 13:
 		cand.SendPkt(Pkt{Type: "upgrade"})
 		sc.wait()
-		if s := sc.w.Sock(c.S.Sid); s != nil && s.Upgraded() && s.Transport().Name() == "websocket" && !cand.closed {
+		if s := sc.w.Sock(c.S.Sid); s != nil && s.Upgraded() && s.Transport().Name() == cand.Kind && !cand.closed {
 			// the client switches: the candidate is now the main transport, polling is abandoned
 			c.Kind = "websocket"
 			c.ws = cand
@@ -507,11 +523,11 @@ func scriptScenario(name string, seed int64, cfg EngCfg, weights map[string]int,
 
 var (
 	wFlow = map[string]int{"max-sessions": 2, "handshake": 1, "poll": 8, "send": 10, "post": 5, "wsmsg": 4, "time": 3, "ws-direct": 30,
-		"jsonp": 15, "preenc": 15, "candopen": 1, "candstep": 4, "gate": 2}
+		"jsonp": 15, "preenc": 15, "candopen": 1, "candstep": 4, "gate": 2, "wt-direct": 15, "wt-cand": 40}
 	wLife = map[string]int{"max-sessions": 3, "handshake": 2, "poll": 5, "send": 4, "post": 3, "wsmsg": 2, "time": 3, "ws-direct": 35,
-		"appclose": 3, "peerclose": 3, "srvclose": 1, "gate": 4, "close-in-payload": 25, "candopen": 1, "candstep": 2, "candlate": 2}
+		"appclose": 3, "peerclose": 3, "srvclose": 1, "gate": 4, "close-in-payload": 25, "candopen": 1, "candstep": 2, "candlate": 2, "wt-direct": 12, "wt-cand": 40}
 	wUpg = map[string]int{"max-sessions": 2, "handshake": 1, "poll": 6, "send": 5, "post": 3, "wsmsg": 3, "time": 4,
-		"candopen": 4, "candstep": 12, "gate": 3, "appclose": 1, "peerclose": 1}
+		"candopen": 4, "candstep": 12, "gate": 3, "appclose": 1, "peerclose": 1, "wt-cand": 45}
 	wPoll = map[string]int{"max-sessions": 2, "handshake": 1, "poll": 8, "send": 5, "post": 6, "time": 3, "overlap": 3,
 		"peerclose": 2, "appclose": 1, "gate": 4, "jsonp": 10, "close-in-payload": 15}
 )
@@ -519,7 +535,7 @@ var (
 func scriptFamily(fam string, seed int64, n int) []Scenario {
 	var out []Scenario
 	for i := 0; i < n; i++ {
-		cfg := EngCfg{PI: 25 * time.Second, PT: 20 * time.Second, EIO3: true}
+		cfg := EngCfg{PI: 25 * time.Second, PT: 20 * time.Second, EIO3: true, WT: i%5 != 4}
 		if i%4 == 1 {
 			cfg.PI, cfg.PT = 400*time.Millisecond, 300*time.Millisecond
 		}
@@ -530,12 +546,12 @@ func scriptFamily(fam string, seed int64, n int) []Scenario {
 		var gates []string
 		switch fam {
 		case "flow":
-			w, gates = wFlow, []string{"polling.send.enter", "ws.send.enter", "upgrade.check", "L.flush", "L.upgrade", "L.drain"}
+			w, gates = wFlow, []string{"polling.send.enter", "ws.send.enter", "wt.send.enter", "upgrade.check", "L.flush", "L.upgrade", "L.drain"}
 		case "life":
 			w, gates = wLife, []string{"socket.onclose.tested", "socket.close.tested", "handshake.constructed", "ws.send.enter", "polling.send.enter", "L.close", "L.flush", "L.message",
 				"log:readyState updated from %s to %s", "log:closing the transport (discard? %t)", "log:setting new request for existing client", "log:closing"}
 		case "upg":
-			w, gates = wUpg, []string{"upgrade.gated", "upgrade.check", "ws.send.enter", "polling.send.enter", "L.flush", "L.close", "L.upgrade", "L.upgrading",
+			w, gates = wUpg, []string{"upgrade.gated", "upgrade.check", "ws.send.enter", "wt.send.enter", "polling.send.enter", "L.flush", "L.close", "L.upgrade", "L.upgrading",
 				"log:upgrading existing transport", "log:got upgrade packet - upgrading", "log:got probe ping packet, sending pong"}
 		case "poll":
 			w, gates = wPoll, []string{"polling.poll.tested", "polling.data.tested", "polling.send.enter", "L.message", "L.flush", "L.close", "rw.write",
@@ -551,12 +567,16 @@ func scriptFamily(fam string, seed int64, n int) []Scenario {
 
 // ---- replay of TLC behaviours of EioSession.tla: each model action maps to one driver primitive;
 // the writer goroutines and the second half of OnClose are driven through the verif gates.
-func replayScenario(name string, beh []map[string]any) Scenario {
+func replayScenario(name string, beh []map[string]any, wtCand bool) Scenario {
 	return Scenario{Name: name, Run: func(t *testing.T, rec *Rec, g *Gates) {
-		cfg := EngCfg{PI: 2 * time.Second, PT: time.Second, UT: 5 * time.Second}
+		cfg := EngCfg{PI: 2 * time.Second, PT: time.Second, UT: 5 * time.Second, WT: wtCand}
+		streamGate := "ws.send.enter"
+		if wtCand {
+			streamGate = "wt.send.enter"
+		}
 		w := newEngWorld(t, rec, g, cfg)
 		sc := &Script{w: w, r: rand.New(rand.NewSource(1)), cfg: cfg, W: map[string]int{},
-			gates: []string{"polling.send.enter", "ws.send.enter", "socket.onclose.tested", "L.flush", "L.close"}}
+			gates: []string{"polling.send.enter", streamGate, "socket.onclose.tested", "L.flush", "L.close"}}
 		s, _ := w.Handshake(4, false, false, ReqOpt{})
 		c := &cliSess{S: s, Kind: "polling", autoPong: false}
 		sc.ss = append(sc.ss, c)
@@ -605,7 +625,7 @@ func replayScenario(name string, beh []map[string]any) Scenario {
 					g.Release("polling.send.enter")
 				}
 			case "wswrite":
-				g.Release("ws.send.enter")
+				g.Release(streamGate)
 			case "onclose.mid":
 				g.Release("socket.onclose.tested")
 			case "onclose.finish":
@@ -629,7 +649,11 @@ func replayScenario(name string, beh []map[string]any) Scenario {
 					c.ws.CloseFrame()
 				}
 			case "cand.open":
-				cand = w.DialWS(s, "", nil, nil)
+				if wtCand {
+					cand = w.DialWT(s, nil)
+				} else {
+					cand = w.DialWS(s, "", nil, nil)
+				}
 			case "cand.probe":
 				if cand != nil && !cand.closed {
 					cand.SendPkt(Pkt{Type: "ping", Data: []byte("probe")})
@@ -674,7 +698,14 @@ func replayScenario(name string, beh []map[string]any) Scenario {
 func replayFamily(behs [][]map[string]any) []Scenario {
 	var out []Scenario
 	for i, b := range behs {
-		out = append(out, replayScenario(fmt.Sprintf("beh%d", i), b))
+		out = append(out, replayScenario(fmt.Sprintf("beh%d", i), b, false))
+		hasCand := false
+		for _, a := range b {
+			hasCand = hasCand || a["a"] == "cand.open"
+		}
+		if hasCand && i%2 == 0 { // the model's stream transport "w" stands for websocket and webtransport alike
+			out = append(out, replayScenario(fmt.Sprintf("beh%dwt", i), b, true))
+		}
 	}
 	return out
 }
